@@ -74,13 +74,19 @@ func vC15Same(a, b vC15Out) bool {
 }
 
 // vC15Probe: B's history: client ID "b", fixed names, symbolic keep-alive, flags, message IDs, predefined topic ID, password and payload bytes.
-func vC15Probe(auth bool) []vC15Step {
+func vC15Probe(auth, will bool) []vC15Step {
 	var out []vC15Step
-	c := snPkts1.NewConnect(vNondetU16("b_keepalive"), []byte("b"), false, vNondetBool("b_clean"))
+	c := snPkts1.NewConnect(vNondetU16("b_keepalive"), []byte("b"), will, vNondetBool("b_clean"))
 	vAssume(c.Duration != 0)
 	out = append(out, vC15Step{sn: c})
 	if auth {
 		out = append(out, vC15Step{sn: snPkts1.NewAuthPlain("u", vNondetBytes("b_pass", 1))})
+	}
+	if will {
+		// the MQTT CONNECT goes out only after the will exchange: a window in which
+		// B's pending CONNECT packet (credentials included) sits in memory
+		out = append(out, vC15Step{sn: snPkts1.NewWillTopic("wt", 0, false)})
+		out = append(out, vC15Step{sn: snPkts1.NewWillMsg(vNondetBytes("b_will", 1))})
 	}
 	ca := mqPkts.NewControlPacket(mqPkts.Connack).(*mqPkts.ConnackPacket)
 	ca.ReturnCode = mqPkts.Accepted
@@ -110,10 +116,12 @@ func vCopyPre(p topics.PredefinedTopics) topics.PredefinedTopics {
 	return out
 }
 
-// VH_C15_isolation(aTyp, aLen, mTyp, pos): A's client packet has MQTT-SN type
+// VH_C15_isolation(aTyp, aLen, mTyp, pos, mode): mode bit 0: B connects with a
+// will (its MQTT CONNECT is sent only after WILLTOPIC/WILLMSG); mode bit 1: A
+// opens a connect exchange before its packet. A's client packet has MQTT-SN type
 // aTyp with aLen symbolic body bytes (aTyp < 0: none), A's broker packet has
 // MQTT type mTyp (0: none); A acts before step pos of B's history.
-func VH_C15_isolation(aTyp, aLen, mTyp, pos int) {
+func VH_C15_isolation(aTyp, aLen, mTyp, pos, mode int) {
 	auth := vNondetBool("auth")
 	var user *string
 	var pass []byte
@@ -138,7 +146,7 @@ func VH_C15_isolation(aTyp, aLen, mTyp, pos int) {
 	b1 := vMkHandlerShared(cfg1, vCopyPre(pre))
 	b2 := vMkHandlerShared(cfgS, pre)
 	a := vMkHandlerShared(cfgS, pre)
-	probe := vC15Probe(auth)
+	probe := vC15Probe(auth, mode&1 != 0)
 	// B alone
 	var ref []vC15Out
 	for _, st := range probe {
@@ -154,6 +162,11 @@ func VH_C15_isolation(aTyp, aLen, mTyp, pos int) {
 	// B with A acting in between
 	for i, st := range probe {
 		if i == pos {
+			if mode&2 != 0 {
+				// A opens a connect exchange of its own first (so that AUTH / WILL* packets are acted on)
+				a.h.state.Set(util.StateDisconnected)
+				vC15Run(a, vC15Step{sn: snPkts1.NewConnect(60, []byte("a"), vNondetBool("a_will"), true)})
+			}
 			if aTyp >= 0 {
 				vC15Run(a, vC15Step{sn: vSNPacket(byte(aTyp), aLen)})
 			}
